@@ -1,3 +1,4 @@
+import re
 """C04 — original bytes and the hashes derived from them are preserved (E4 fieldflow + origins + HIR shapes)."""
 import facts
 import fieldflow as ff
@@ -160,6 +161,30 @@ def check(rep, F, tier, replay=None):
         do = ff.args_of(_origins_any(org, d[0][4]))
         if not ao or ao != do:
             rep.violation("FT-aux", "%s|different-source" % key, "%s: auxiliary_bytes and auxiliary_data are computed from different arguments (%s vs %s)" % (key, sorted(ao), sorted(do)), {"function": fid})
+    # FT-capture: inside the byte-preserving transaction decoder a preserved part is never decoded outside a capture
+    rep.rule("FT-capture", "in serialization/fixed_tx.rs (the FixedTransaction decoder and its closures) every call of the typed TransactionBody / AuxiliaryData reader sits in a closure that is handed to deserilized_with_orig_bytes: a part decoded without the capture has no original bytes, so the transaction is re-serialised without it (a legacy 3-element transaction would lose its auxiliary data: `null` is written and the hashes of what is signed change)")
+    n_cap = 0
+    for fid, fn in F.fns.items():
+        if (fn.get("file") or "") != "src/serialization/fixed_tx.rs" or F.is_derived(fid):
+            continue
+        for c in F.calls(fid):
+            to = c.to or ""
+            if not re.search(r"Deserialize for protocol_types::(transaction_body::TransactionBody|metadata::AuxiliaryData)>::deserialize$", to):
+                continue
+            n_cap += 1
+            rep.inst("FT-capture")
+            par = fid.rsplit("::{closure", 1)[0] if "::{closure" in fid else None
+            ok = False
+            if par and par in F.fns:
+                porg = ff.Origins(F, par)
+                pfn = F.fns[par]
+                for pc in F.calls(par):
+                    if (pc.to or "").endswith("deserilized_with_orig_bytes") and any(("closure:" + fid) in porg.of_operand(a) for a in pfn["bbs"][pc.bb]["t"][3]):
+                        ok = True
+            if not ok:
+                what = "AuxiliaryData" if "AuxiliaryData" in to else "TransactionBody"
+                rep.violation("FT-capture", "%s|%s" % (F.key(fid.split("::{closure")[0]), what), "%s decodes a %s with the typed reader outside a deserilized_with_orig_bytes capture: FixedTransaction keeps no original bytes for it, so from_bytes(tx).to_bytes() writes `null` (or re-encoded bytes) where the input had the part" % (F.key(fid), what), {"file": fn.get("file"), "line": c.line})
+    rep.floor("typed decodes of preserved parts in the FixedTransaction decoder", 3, n_cap)
     # SET-total: a raw-bytes setter stores what it was given on every success path
     from collections import deque as _dq
     import mustpass as _mp
